@@ -240,7 +240,19 @@ pub fn c18(thorough: bool, miri: bool, seed: u64, threads: usize) -> Json {
                         }
                     }
                     rep.class("writer-config-exhausted");
-                } else if i < cfgs.len() + 3 + 64 {
+                } else if i == cfgs.len() + 3 {
+                    // many buffered pieces flushed at once (sizes around 1024 = IOV_MAX, and the u16 maximum)
+                    for (size, adds) in [(1023u16, 1023usize), (1024, 1024), (1025, 1025), (1100, 1100), (2048, 2000), (4096, 4096), (65535, 3000)] {
+                        for piece_len in [1usize, 6, 8] {
+                            let mut ops: Vec<Op> = (0..adds).map(|_| Op::Add(piece_len)).collect();
+                            ops.push(Op::Empty);
+                            ops.push(Op::Add(3));
+                            ops.push(Op::Empty);
+                            run_seq(false, size, 8, &[], &src_path, &scratch, &ops, &mut rep);
+                        }
+                    }
+                    rep.class("writer-large-window");
+                } else if i < cfgs.len() + 4 + 64 {
                     // seeded random long sequences with large parameters
                     let mut r = Rng::new(seed.wrapping_mul(977).wrapping_add(i as u64));
                     for _ in 0..nrandom / 64 {
